@@ -14,11 +14,15 @@ TRUSTED = []
 KEEP_PREFIX = 0
 POOL = {"flow": ["t3", "t5", "t7", "w9", "xneg", "xwarm"], "iso": ["c1", "c2", "c3", "xzero"], "hs": ["q2", "q4", "c3", "xdur", "xkey"],
         "br": ["e2", "e3", "r5", "s5", "xivl", "xthr"], "sys": ["q5", "q6", "c3", "l5", "xneg", "xload"]}
+# parameter sets that differ from a pool member in exactly one field other than the threshold (pacing interval, maximum queueing
+# time, warm-up period / cold factor, a per-value override, burst, parameter index, retry timeout, minimum request amount, slow-call
+# bound, adaptive strategy): a rule equality (or hash) that overlooks a field makes a replacement look like "unchanged"
+VARIANTS = {"flow": ["h4", "h4i", "h4q", "p5", "w9p", "w9c"], "hs": ["q2o", "q2b", "q2i"], "br": ["r5t", "r5m", "s5m"], "sys": ["l5b"], "iso": []}
 
 
 def gen_case(rng, tier):
     fam = rng.choice(["flow", "flow", "br", "hs", "iso", "sys"])
-    pool = POOL[fam]
+    pool = POOL[fam] + (VARIANTS[fam] if rng.random() < 0.5 else [])
     res = ["r1", "r2", "r3"][:rng.randint(2, 3)]
     ops = []
     nid = [0]
@@ -28,6 +32,12 @@ def gen_case(rng, tier):
         r = r or rng.choice(res)
         if reuse and rng.random() < 0.5:
             return reuse
+        if reuse and rng.random() < 0.3:
+            # the id of a rule given earlier, with other parameters: it is another rule (seed C09-e: equality by id)
+            rid, rres, rkey = reuse.split("@")
+            others = [k for k in pool if k != rkey]
+            if others:
+                return "%s@%s@%s" % (rid, rres, rng.choice(others))
         nid[0] += 1
         return "%s%d@%s@%s" % ("abcdefgh"[nid[0] % 8], nid[0], r, key)
 
@@ -72,26 +82,35 @@ def gen_case(rng, tier):
                 ops.append("m fam=%s op=getres res=%s" % (fam, r))
                 if fam == "br":
                     ops.append("m fam=br op=enforced res=%s" % r)
-            if fam in ("flow", "iso") and rng.random() < 0.4 and not any("@w9" in o for o in ops):
+            if fam in ("flow", "iso") and rng.random() < 0.4 and not any("@w9" in o or "@h4" in o for o in ops):
                 ops.append("m fam=%s op=probe res=%s" % (fam, rng.choice(res)))
     return ops
 
 
 REUSABLE = {"flow": ["t3", "t5", "t7"], "hs": ["q2", "q4"], "br": ["e2", "e3"]}
+ONEFIELD = {"flow": [["h4", "h4i", "h4q"], ["w9", "w9p", "w9c"], ["t5", "p5"]], "hs": [["q2", "q2o", "q2b", "q2i"]], "br": [["r5", "r5t", "r5m"], ["s5", "s5m"]],
+            "sys": [["l5", "l5b"]]}
 
 
 def gen_focus(rng, tier):
     """one resource, rules that differ but can take over each other's statistics (same window / strategy): appends and
     per-resource loads in quick succession, so that the 'reuse the statistic of an old controller' path of the builders runs
     on lists that are still in use (seed C10-d)"""
-    fam = rng.choice(["br", "br", "flow", "hs"])
-    keys = REUSABLE[fam]
+    if rng.random() < 0.5:
+        fam = rng.choice(["br", "br", "flow", "hs"])
+        keys = REUSABLE[fam]
+    else:
+        # replacements and appends among rules that differ in one field only
+        fam = rng.choice(["flow", "flow", "hs", "br", "sys"])
+        keys = rng.choice(ONEFIELD[fam])
     ops = []
     nid = 0
     for _ in range(rng.randint(2, 7)):
         nid += 1
         r = "%s%d@r1@%s" % ("abcdefgh"[nid % 8], nid, rng.choice(keys))
         x = rng.random()
+        if fam == "sys":
+            x = 0.5 if x < 0.7 else 0.9          # no per-resource calls in the system family
         if x < 0.65:
             ops.append("m fam=%s op=append rule=%s" % (fam, r))
         elif x < 0.85:
@@ -101,10 +120,11 @@ def gen_focus(rng, tier):
         else:
             ops.append("m fam=%s op=loadall rules=%s" % (fam, r))
         ops.append("m fam=%s op=get" % fam)
-        ops.append("m fam=%s op=getres res=r1" % fam)
+        if fam != "sys":
+            ops.append("m fam=%s op=getres res=r1" % fam)
         if fam == "br":
             ops.append("m fam=br op=enforced res=r1")
-        if fam == "flow" and rng.random() < 0.5:
+        if fam == "flow" and rng.random() < 0.5 and not any(k[0] in "hw" for k in keys):
             ops.append("m fam=flow op=probe res=r1")
     return ops
 
